@@ -1841,6 +1841,28 @@ func (in *Interp) callInstr(fr *frame, x *ssa.Call, pred bdd.Node, st *State) Va
 		if bv, ok := args[0].(dom.BV); ok {
 			return in.C.PopCount(bv, in.intWidth())
 		}
+	case "math/bits.TrailingZeros8", "math/bits.TrailingZeros16", "math/bits.TrailingZeros32", "math/bits.TrailingZeros64", "math/bits.TrailingZeros":
+		if bv, ok := args[0].(dom.BV); ok {
+			w := in.intWidth()
+			res := in.C.Const(w, uint64(len(bv))) // zero operand: the width
+			for i := len(bv) - 1; i >= 0; i-- {
+				res = in.C.Mux(bv[i], in.C.Const(w, uint64(i)), res)
+			}
+			return res
+		}
+	case "math/bits.LeadingZeros8", "math/bits.LeadingZeros16", "math/bits.LeadingZeros32", "math/bits.LeadingZeros64", "math/bits.LeadingZeros",
+		"math/bits.Len8", "math/bits.Len16", "math/bits.Len32", "math/bits.Len64", "math/bits.Len":
+		if bv, ok := args[0].(dom.BV); ok {
+			w := in.intWidth()
+			length := in.C.Const(w, 0) // Len: index of the highest set bit + 1
+			for i := 0; i < len(bv); i++ {
+				length = in.C.Mux(bv[i], in.C.Const(w, uint64(i+1)), length)
+			}
+			if strings.Contains(name, "Len") {
+				return length
+			}
+			return in.C.Sub(in.C.Const(w, uint64(len(bv))), length)
+		}
 	case "log.Printf", "log.Print", "log.Println":
 		in.T.Emit(pred, "Log", "log", nil, 0, pos)
 		return nil
